@@ -23,11 +23,11 @@ CLAIMS.update({
     design="7 C01"),
   "C04": dict(
     technique="Lean 4 proof (no assumption on callbacks: case analysis of the two halves of an activation; induction on the drain loop) + systematic fault enumeration against the implementation",
-    text="Theorems C04_state (failure in validators/guards/before/exit/on leaves the source, in enter/after the target, never anything else), C04_drain_error / C04_process_error (exception reaches the caller, queue emptied), C04_not_wedged / C04_send_error_usable (lock released; next send processed normally), for arbitrary callback behaviour in RTC mode. Correspondence: every generated scenario is re-run with a raising invocation injected at sampled invocation positions of every phase (first, nested, queued triggers; single and double faults), model vs implementation, plus a Spec monitor on the implementation trace.",
+    text="Theorems C04_state (failure in validators/guards/before/exit/on leaves the source, in enter/after the target, never anything else), C04_drain_error / C04_process_error (exception reaches the caller, queue emptied), C04_not_wedged / C04_send_error_usable (lock released; next send processed normally), for arbitrary callback behaviour in RTC mode. Correspondence: every generated scenario is re-run with a raising invocation injected at sampled invocation positions of every phase (first, nested, queued triggers; single and double faults), model vs implementation, plus a Spec monitor on the implementation trace. C04_state_two_values_any / activatePost_cur_any: the same for every handler (rtc=False) when callbacks send no events; C04_nonrtc_propagates: the rtc=False loop hands the exception to the caller unchanged.",
     design="7 C04"),
   "C14": dict(
     technique="Lean 4 proof (result of an executed transition computed in closed form) + model/implementation correspondence + Spec monitor on implementation traces",
-    text="Theorems C14_result / activate_fire (an executed transition returns unwrap(applicable before results ++ applicable on results), nothing else contributes), unwrap_cases (None / the value / the list), mem_applicable (event-scoped callbacks filtered by the triggering event), C14_rejected_none, drainLoop_single (the outermost call returns it). Correspondence over 0-3 before x 0-3 on callbacks in all styles/providers with a pool of None/falsy/container return values, internal/self/multi-event transitions, both engines; return values of every callback are compared.",
+    text="Theorems C14_result / activate_fire (an executed transition returns unwrap(applicable before results ++ applicable on results), nothing else contributes), unwrap_cases (None / the value / the list), mem_applicable (event-scoped callbacks filtered by the triggering event), C14_rejected_none, drainLoop_single (the outermost call returns it). Correspondence over 0-3 before x 0-3 on callbacks in all styles/providers with a pool of None/falsy/container return values, internal/self/multi-event transitions, both engines; return values of every callback are compared. C14_result_any: the same rule under every handler (rtc=False) when callbacks send no events; an event used as a before/on callback contributes None under run-to-completion (rtcRet) and the chained event's own result under rtc=False (Act.retSend / Machine.resVal, checked by the chain-scenario correspondence).",
     design="7 C14"),
 })
 CLAIMS.update({
@@ -39,7 +39,7 @@ CLAIMS.update({
 CLAIMS.update({
   "C02": dict(
     technique="Lean 4 proof (graded relational invariants lifted through the engine; no assumption on callbacks) + model/implementation correspondence + Spec monitor on implementation traces",
-    text="Theorems C02_phase_order (entries of one activation are ordered validators<=cond<=before<=exit<=on<=assignment<=enter<=after, also when it stops early), C02_entries (every entry is an applicable callback of the right group of this transition, with the triggering event, source and target; nested sends return None), C02_internal_no_exit_enter, C02_event_scoped, C02_view_pre/C02_view_post (callbacks up to `on` see the source, enter/after see the target), C02_initial (initial activation = assignment + enter callbacks under __initial__), for arbitrary callback behaviour in RTC mode. Correspondence with sparsely populated groups, all attachment styles and providers, self/internal/multi-event transitions, both engines; exact callback sets per group are compared with the model.",
+    text="Theorems C02_phase_order (entries of one activation are ordered validators<=cond<=before<=exit<=on<=assignment<=enter<=after, also when it stops early), C02_entries (every entry is an applicable callback of the right group of this transition, with the triggering event, source and target; nested sends return None), C02_internal_no_exit_enter, C02_event_scoped, C02_view_pre/C02_view_post (callbacks up to `on` see the source, enter/after see the target), C02_initial (initial activation = assignment + enter callbacks under __initial__), for arbitrary callback behaviour in RTC mode. Correspondence with sparsely populated groups, all attachment styles and providers, self/internal/multi-event transitions, both engines; exact callback sets per group are compared with the model. For machines whose callbacks send no events the same theorems hold for every nested-send handler, i.e. also for rtc=False (C02_*_any, via Lemmas/NoSends); an event used as a callback is part of the model (Act.retSend).",
     design="7 C02"),
   "C10": dict(
     technique="Lean 4 proof (invariants over operation histories of a store model) + differential correspondence with the real library + independent Spec oracle",
